@@ -26,19 +26,20 @@ type specRecorder struct {
 	oldBase  map[string]bool   // heap keys written at a reference that existed before the loop
 	ghostMod map[string]bool
 	wMoved   bool
+	epoch0   int
 	heldDiff bool
 	deep     bool
 }
 
 // stop is called before each step while a recorder is active.
 func (s *specRecorder) stop(st *State, f *Frame) bool {
+	// paths that leave the loop do not influence the state seen at the loop head:
+	// only arrivals at the back edge are recorded (see gotoBlock)
 	if len(st.frames)-1 < s.depth {
-		s.record(st)
 		st.dead = true
 		return true
 	}
 	if len(st.frames)-1 == s.depth && f.id == s.frameID && f.ip == 0 && !s.body[f.blk.Index] {
-		s.record(st)
 		st.dead = true
 		return true
 	}
@@ -50,6 +51,9 @@ func (s *specRecorder) matches(st *State, f *Frame, to *ssa.BasicBlock) bool {
 }
 
 func (s *specRecorder) record(st *State) {
+	if st.epoch != s.epoch0 {
+		s.deep = true
+	}
 	for k, t := range st.heap {
 		h, ok := s.headHeap[k]
 		if !ok || h.S != t.S {
@@ -329,7 +333,7 @@ func (r *Runner) summarise(st *State, f *Frame, hdr *ssa.BasicBlock, body map[in
 	}
 	sp.writes = map[string][]string{}
 	sp.allocLog = map[string]bool{}
-	epoch0 := sp.epoch
+	rec.epoch0 = sp.epoch
 	// run the body once from the head, quietly
 	savedWork, savedRec, savedPaths := r.work, r.specRec, r.paths
 	r.work = nil
@@ -358,9 +362,6 @@ func (r *Runner) summarise(st *State, f *Frame, hdr *ssa.BasicBlock, body map[in
 				if s.steps > 200000 {
 					panic(unsupported("step limit in loop summary"))
 				}
-			}
-			if s.epoch != epoch0 {
-				rec.deep = true
 			}
 		}
 	}()
